@@ -504,6 +504,27 @@ func c10Composition(p *Prog, r *Report) {
 			if sel, ok := x.(*ast.SelectorExpr); ok && lf.rawPath(sel.X) == wPath {
 				midFields[sel.Sel.Name] = true
 			}
+			// a method of the object that owns the writer (spool.unwritten() reading s.out.buf[s.out.n:]): the fields
+			// of the writer its body reads, with its receiver standing for the caller's
+			if c, ok := x.(*ast.CallExpr); ok {
+				if sel, ok := ast.Unparen(c.Fun).(*ast.SelectorExpr); ok {
+					if h := p.staticCallee(cs.Pkg, c); h != nil && h.Pkg == cs.Pkg && h.Decl != nil && h.Decl.Body != nil && h.Decl.Recv != nil && len(h.Decl.Recv.List[0].Names) == 1 {
+						rn := h.Decl.Recv.List[0].Names[0].Name
+						outer := lf.rawPath(sel.X)
+						ast.Inspect(h.Decl.Body, func(y ast.Node) bool {
+							if hs, ok := y.(*ast.SelectorExpr); ok {
+								hp := exprPath(hs.X)
+								if hp == rn || strings.HasPrefix(hp, rn+".") {
+									if outer+strings.TrimPrefix(hp, rn) == wPath && outer != wPath {
+										midFields[hs.Sel.Name] = true
+									}
+								}
+							}
+							return true
+						})
+					}
+				}
+			}
 			// a method of the writer that returns the unwritten part (sink.rest()): the fields its body reads
 			if c, ok := x.(*ast.CallExpr); ok {
 				if sel, ok := ast.Unparen(c.Fun).(*ast.SelectorExpr); ok && lf.rawPath(sel.X) == wPath {
